@@ -243,15 +243,15 @@ def bypass_harmless(g, node_id: int, list_attr: str) -> bool:
     return ex is None or norm.entails(ex, ("truth", f"self.{list_attr}", False))
 
 
-_PA_CACHE: Dict[int, PoolAnalysis] = {}
+_PA_CACHE: Dict = {}
 
 
 def pool_analysis(P) -> PoolAnalysis:
-    pa = _PA_CACHE.get(id(P))
-    if pa is None:
-        pa = PoolAnalysis(P)
-        _PA_CACHE[id(P)] = pa
-    return pa
+    hit = _PA_CACHE.get(id(P))
+    if hit is None or hit[0] is not P:
+        hit = (P, PoolAnalysis(P))
+        _PA_CACHE[id(P)] = hit
+    return hit[1]
 
 
 # -- obligations shared by several properties -----------------------------------------------------------
